@@ -335,6 +335,8 @@ def generate():
     sys.path.insert(0, os.path.dirname(os.path.abspath(__file__)))
     from extract_c11 import extract_c11
     parts.append(extract_c11())
+    from extract_c13 import extract_coding, lean_coding_tables
+    parts.append(lean_coding_tables(extract_coding()))
     parts.append("end FormulaeModel.Generated\n")
     return "\n".join(parts), dict(parser=p, resolver=r)
 
